@@ -9,11 +9,14 @@ import (
 	"encoding/binary"
 	"fmt"
 	"io"
+	"os"
+	"reflect"
 	"sort"
 	"strings"
 	"sync"
 	"testing"
 	"time"
+	"unsafe"
 
 	"github.com/spikeekips/mitum/base"
 	"github.com/spikeekips/mitum/isaac"
@@ -160,6 +163,7 @@ func c10newEnv() *c10env {
 		return op
 	}
 	add("join-c1", "join", join("t-join-c1", "c1", e.nodes...), false, "")
+	add("join-c2", "join", join("t-join-c2-valid", "c2", e.nodes...), false, "")
 	add("join-c2-fewsigns", "join", join("t-join-c2", "c2", e.nodes[0]), false, "")
 	add("join-c1-dup", "join", join("t-join-c1-dup", "c1", e.nodes...), false, "")
 	candop := func(token, c string) isaacoperation.SuffrageCandidate {
@@ -221,7 +225,7 @@ func (e *c10env) getOperation(_ context.Context, oph, _ util.Hash) (base.Operati
 func (e *c10env) newOperationProcessor(rec *c10rec) isaac.NewOperationProcessorFunc {
 	limiter := func(base.Height, base.GetStateFunc) (base.OperationProcessorProcessFunc, error) {
 		var counted uint64
-		const limit = 1
+		const limit = 2
 		return func(context.Context, base.Operation, base.GetStateFunc) (base.OperationProcessReasonError, error) {
 			if counted >= limit {
 				return base.NewBaseOperationProcessReasonf("reached limit, %d", limit), nil
@@ -381,8 +385,61 @@ type c10run struct {
 	done     bool
 }
 
+// c10setField overwrites an unexported field of a struct of another package.
+func c10setField(obj any, name string, val any) {
+	f := reflect.ValueOf(obj).Elem().FieldByName(name)
+	if !f.IsValid() {
+		panic("c10: no field " + name)
+	}
+	reflect.NewAt(f.Type(), unsafe.Pointer(f.UnsafeAddr())).Elem().Set(reflect.ValueOf(val))
+}
+
+func c10fnv(s string) uint64 {
+	h := uint64(14695981039346656037)
+	for i := 0; i < len(s); i++ {
+		h ^= uint64(s[i])
+		h *= 1099511628211
+	}
+	return h
+}
+
+// newRunLight is newRun for the controlled scheduler: the processor is a field-by-field copy of
+// one made by the real constructor, with fresh `oprs` and `stcache` sharded maps whose shard
+// placement is chosen by the harness (spread by a fixed hash, or everything in one shard). The
+// real constructor allocates a 65535-slot shard table (1 MB, ~1.1 ms here) per processor and
+// draws a random djb2 seed; shard count and seed only decide which keys share a lock.
+func (e *c10env) newRunLight(tmpl *isaac.DefaultProposalProcessor, in *c10input, workers int64, collide bool) *c10run {
+	run := &c10run{in: in, rec: &c10rec{}}
+	p := new(isaac.DefaultProposalProcessor)
+	reflect.ValueOf(p).Elem().Set(reflect.ValueOf(tmpl).Elem())
+	hashf := func(k interface{}, size uint64) (uint64, interface{}) {
+		if collide {
+			return 0, k
+		}
+		return c10fnv(k.(string)) % size, k
+	}
+	oprs, err := util.NewShardedMapWithSeed[string, base.OperationProcessor](1, 1<<5, hashf, nil)
+	c10must(err)
+	stcache, err := util.NewShardedMapWithSeed[string, [2]interface{}](1, 1<<9, hashf, nil)
+	c10must(err)
+	c10setField(p, "oprs", oprs)
+	c10setField(p, "stcache", stcache)
+	c10setField(p, "args", e.newArgs(run, workers))
+	run.p = p
+	return run
+}
+
 func (e *c10env) newRun(in *c10input, workers int64) *c10run {
 	run := &c10run{in: in, rec: &c10rec{}}
+	p, err := isaac.NewDefaultProposalProcessor(in.proposal, e.previous, e.newArgs(run, workers))
+	c10must(err)
+	run.p = p
+	return run
+}
+
+func (e *c10env) newArgs(run *c10run, workers int64) *isaac.DefaultProposalProcessorArgs {
+	in := run.in
+	_ = in
 	args := isaac.NewDefaultProposalProcessorArgs()
 	args.MaxWorkerSize = workers
 	args.GetStateFunc = e.getState
@@ -395,10 +452,7 @@ func (e *c10env) newRun(in *c10input, workers int64) *c10run {
 		run.w = &c10writer{Writer: w, rec: run.rec}
 		return run.w, nil
 	}
-	p, err := isaac.NewDefaultProposalProcessor(in.proposal, e.previous, args)
-	c10must(err)
-	run.p = p
-	return run
+	return args
 }
 
 func (run *c10run) process() {
@@ -598,17 +652,13 @@ var _ io.Reader = (*c10stream)(nil)
 type c10scenario struct {
 	sel     []int
 	workers int64
-	seed    string
-	desc    bool
+	seed    string // pinned crypto/rand stream: shard placement of the maps mitum creates inside Process
+	collide bool   // oprs / stcache of the processor: every key in one shard (true) or spread (false)
+	desc    bool   // instrumented map ranges iterate in descending instead of ascending key order
 	bound   int
 }
 
-func TestVerifC10(t *testing.T) {
-	r := vlib.Start("C10")
-	defer r.Finish()
-	r.Rule("stage 2 (controlled scheduler): scenario = ordered selection of menu operations x MaxWorkerSize x pinned shard seed x map-range order; one root thread calls DefaultProposalProcessor.Process on fresh real objects; all interleavings within the preemption bound of that thread and every goroutine the processor, its job worker, the writer's save worker and the states merger's close worker start; every execution's (manifest hash, operations root, states root, suffrage hash, error) must equal the sequential native reference of the input; non-trivial = scenario in which more than one arrival order at the states merger / operations tree was observed")
-	r.Assume("goleveldb and the JSON encoder run as atomic steps of the calling thread; the FSWriter is a recording stub")
-	e := c10newEnv()
+func (e *c10env) schedScenarios(r *vlib.Run) []c10scenario {
 	idx := map[string]int{}
 	for i, it := range e.menu {
 		idx[it.name] = i
@@ -624,32 +674,54 @@ func TestVerifC10(t *testing.T) {
 		}
 		return out
 	}
-	var scs []c10scenario
+	// inputs whose operations meet in one state merger / one processor
 	conflicts := [][]int{
-		sel("join-c1", "join-c1-dup"),
+		sel("join-c1", "join-c2"),         // two nodes appended to the suffrage state, two candidates removed
+		sel("join-c1", "join-c1-dup"),     // second join of the same candidate is refused in PreProcess
+		sel("disjoin-n1", "expel-n1"),     // same node leaves twice (operation + reserved expel)
+		sel("disjoin-n1", "expel-n2"),     // two nodes leave
+		sel("policy-a", "policy-b"),       // only one network-policy operation per block
+		sel("cand-c3", "cand-cx"),         // two candidates added, one replaces an expired record
+		sel("join-c1", "disjoin-n1"),      // join + leave on the suffrage state
+		sel("join-c1", "cand-c3"),         // remove + add on the candidates state
+		sel("expel-n2", "expel-n1"),       // two reserved operations
+		sel("join-c2", "policy-a"),        // three states
 		sel("join-c1", "join-c2-fewsigns"),
-		sel("disjoin-n1", "expel-n1"),
-		sel("disjoin-n1", "expel-n2"),
-		sel("policy-a", "policy-b"),
-		sel("join-c1", "cand-c3"),
-		sel("join-c1", "disjoin-n1"),
-		sel("cand-c3", "cand-cx"),
-		sel("expel-n2", "expel-n1"),
-		sel("join-c1", "policy-a"),
+		sel("expel-n2-in-proposal", "join-c1"), // ignored operation leaves a hole in the operations tree
 	}
+	var scs []c10scenario
 	if !r.Thorough() {
-		for _, c := range conflicts {
-			for _, w := range []int64{1, 2, 64} {
-				scs = append(scs, c10scenario{sel: c, workers: w, seed: "A", bound: 1})
+		for k, c := range conflicts {
+			bound := 1
+			ws := []int64{2}
+			if k >= 6 {
+				bound = 0
+				ws = []int64{2, 64}
+			}
+			for _, w := range ws {
+				scs = append(scs, c10scenario{sel: c, workers: w, seed: "A", bound: bound})
 			}
 		}
-	} else {
-		for _, c := range conflicts {
-			for _, w := range []int64{1, 2, 64} {
-				scs = append(scs, c10scenario{sel: c, workers: w, seed: "A", bound: 2})
-			}
+		scs = append(scs, c10scenario{sel: conflicts[0], workers: 64, seed: "B", collide: true, desc: true, bound: 0})
+		scs = append(scs, c10scenario{sel: conflicts[0], workers: 1, seed: "A", bound: 0})
+		return scs
+	}
+	for _, c := range conflicts {
+		for _, w := range []int64{1, 2, 64} {
+			scs = append(scs, c10scenario{sel: c, workers: w, seed: "A", bound: 1})
 		}
 	}
+	return scs
+}
+
+func TestVerifC10(t *testing.T) {
+	r := vlib.Start("C10")
+	defer r.Finish()
+	r.Rule("stage 2 (controlled scheduler): scenario = ordered selection of menu operations x MaxWorkerSize x shard placement (pinned seed; processor maps spread / all-in-one-shard) x map-range order; one root thread calls DefaultProposalProcessor.Process on fresh real objects; all interleavings within the preemption bound of that thread and every goroutine the processor, its job workers, the writer's save worker and the states merger's close worker start; every execution's (manifest hash, operations root, states root, suffrage hash, error) must equal the sequential native reference of the input; non-trivial = scenario in which more than one arrival order at the states merger / operations tree was observed")
+	r.Assume("goleveldb and the JSON encoder run as atomic steps of the calling thread; the FSWriter is a recording stub")
+	r.Assume("stage 2 builds the processor as a copy of one made by NewDefaultProposalProcessor with fresh oprs/stcache sharded maps of 32/512 shards and harness-chosen placement instead of 32/65535 shards and a random djb2 seed (lock sharing only)")
+	e := c10newEnv()
+	scs := e.schedScenarios(r)
 	r.Set("sched_scenarios_enumerated", len(scs))
 	orig := crand.Reader
 	defer func() { crand.Reader = orig }()
@@ -659,26 +731,30 @@ func TestVerifC10(t *testing.T) {
 		}
 		s := s
 		in := e.newInput(s.sel)
-		id := fmt.Sprintf("sched|%s|w=%d|seed=%s|desc=%v", in.id(), s.workers, s.seed, s.desc)
+		id := fmt.Sprintf("sched|%s|w=%d|seed=%s|collide=%v|desc=%v", in.id(), s.workers, s.seed, s.collide, s.desc)
+		if rid, rp := r.Replaying(); rp {
+			if k := strings.LastIndex(rid, "#"); k < 0 || rid[:k] != id {
+				continue
+			}
+		}
 		// sequential native reference of this input
 		ref0 := e.newRun(in, 1)
 		ref0.process()
 		ref := e.result(ref0)
 		ref0.finishNative()
+		tmpl, err := isaac.NewDefaultProposalProcessor(in.proposal, e.previous, isaac.NewDefaultProposalProcessorArgs())
+		c10must(err)
 
 		stream := &c10stream{key: "c10-seed-" + s.seed}
-		var last *c10run
 		build := func() vsched.Scenario {
 			stream.reset()
-			run := e.newRun(in, s.workers)
-			last = run
-			outcome := func() string {
-				got := e.result(run)
-				return fmt.Sprintf("%s | merge-order=%s result-order=%s", got.class, strings.Join(run.rec.merges, "<"), strings.Join(run.rec.results, "<"))
-			}
+			run := e.newRunLight(tmpl, in, s.workers, s.collide)
 			return vsched.Scenario{
-				Roots:   []func(){run.process},
-				Outcome: func(*vsched.Exec) string { return outcome() },
+				Roots: []func(){run.process},
+				Outcome: func(*vsched.Exec) string {
+					got := e.result(run)
+					return fmt.Sprintf("%s | merge-order=%s result-order=%s", got.class, strings.Join(run.rec.merges, "<"), strings.Join(run.rec.results, "<"))
+				},
 				Check: func(x *vsched.Exec) *vsched.Fail {
 					if x.Panic != nil {
 						return &vsched.Fail{Sig: map[string]any{"kind": "panic", "stage": "sched"}, Detail: fmt.Sprintf("%v\n%s | %s", x.Panic, x.PanicStack, id)}
@@ -698,28 +774,31 @@ func TestVerifC10(t *testing.T) {
 				},
 			}
 		}
-		_ = last
 		crand.Reader = stream
 		vsched.Descending = s.desc
+		restore := func() { crand.Reader = orig; vsched.Descending = false }
 		if rid, rp := r.Replaying(); rp {
 			k := strings.LastIndex(rid, "#")
-			if k < 0 || rid[:k] != id {
-				crand.Reader = orig
-				continue
-			}
 			sc := build()
 			x := vsched.Run(vsched.Options{Prefix: vsched.ParseChoices(rid[k+1:])}, sc.Roots...)
-			crand.Reader = orig
+			restore()
 			r.Trace()
 			if f := sc.Check(x); f != nil {
 				r.Violation(rid, f.Sig, f.Detail, nil)
 			}
 			continue
 		}
+		if os.Getenv("C10_TRACE") != "" {
+			sc := build()
+			x := vsched.Run(vsched.Options{Log: true}, sc.Roots...)
+			restore()
+			fmt.Println("TRACE", id)
+			fmt.Println(strings.Join(x.Log, "\n"))
+			continue
+		}
 		t0 := time.Now()
 		res := vsched.Explore(vsched.Config{Name: id, Bound: s.bound, Build: build, Expired: r.Expired, MaxFound: 2, Horizon: 20000})
-		crand.Reader = orig
-		vsched.Descending = false
+		restore()
 		if res.EngineError != "" {
 			panic("engine error in " + id + ": " + res.EngineError)
 		}
@@ -727,9 +806,13 @@ func TestVerifC10(t *testing.T) {
 		r.TransitionN(res.Points)
 		r.EvalN(res.Executions)
 		r.Add("sched_scenarios", 1)
+		r.Add(fmt.Sprintf("sched_scenarios_bound%d", s.bound), 1)
 		r.Add("sched_ns", time.Since(t0).Nanoseconds())
+		for b, n := range res.ByPreemptions {
+			r.Add(fmt.Sprintf("sched_executions_with_%d_preemptions", b), n)
+		}
 		if res.Capped != "" {
-			r.Cap(res.Capped)
+			r.Cap(res.Capped + " in " + id)
 		} else {
 			r.Min("preemption_bound_completed", int64(res.BoundCompleted))
 		}
@@ -745,7 +828,11 @@ func TestVerifC10(t *testing.T) {
 		for _, f := range res.Found {
 			r.Violation(id+"#"+vsched.ChoicesString(f.Choices), f.Fail.Sig, f.Fail.Detail+fmt.Sprintf(" (preemptions=%d)", f.Preempt), nil)
 		}
-		r.Sample(map[string]any{"scenario": id, "executions": res.Executions, "points_max": res.MaxPoints, "arrival_orders": len(res.Outcomes),
-			"ms": time.Since(t0).Milliseconds()})
+		r.Sample(map[string]any{"scenario": id, "bound": s.bound, "executions": res.Executions, "by_preemptions": fmt.Sprint(res.ByPreemptions),
+			"points_max": res.MaxPoints, "arrival_orders": len(res.Outcomes), "ms": time.Since(t0).Milliseconds()})
+		if os.Getenv("C10_STATS") != "" {
+			fmt.Printf("STATS %s bound=%d execs=%d by=%v points_max=%d orders=%d ms=%d capped=%q\n", id, s.bound, res.Executions, res.ByPreemptions,
+				res.MaxPoints, len(res.Outcomes), time.Since(t0).Milliseconds(), res.Capped)
+		}
 	}
 }
